@@ -1,6 +1,6 @@
 (* C07, third part: a store that verifies never retains a mismatching object after an add. *)
 From Coq Require Import NArith List Bool Lia.
-From DvcData Require Import Base.Val Gen.Check Model.Integrity Proofs.IntegrityProofs Proofs.IntegrityProofsFold.
+From DvcData Require Import Base.Val Gen.Check Model.StateDbBase Model.Integrity Proofs.IntegrityProofs Proofs.IntegrityProofsFold.
 Import ListNotations.
 Open Scope N_scope.
 
